@@ -115,12 +115,26 @@ pub fn run(cfg: &Cfg, rep: &mut Report) {
                 }
             }
         }
+        // optionally damage the header instead: initialize must still be the first (and only) callback
+        let header_damage = !inject && rng.chance(1, 5);
+        if header_damage {
+            match rng.below(3) {
+                0 => w[0] = crate::gram::MAGIC.swap_bytes(),
+                1 => w[0] = rng.u32() | 1,
+                _ => w.truncate(rng.below(5)),
+            }
+            if w.first() == Some(&crate::gram::MAGIC) && w.len() >= 5 {
+                w[0] ^= 0x10;
+            }
+            err_at = Some(0);
+        }
         let bytes = words_to_bytes(&w);
-        let delivered_max = err_at.map(|j| j - 1).unwrap_or(n_inst);
+        let via_words = rng.chance(1, 2);
+        let delivered_max = err_at.map(|j| j.saturating_sub(1)).unwrap_or(n_inst);
         let want_dr: Vec<Option<dr::Instruction>> = insts.iter().map(|i| i.to_dr()).collect();
         let rp = || crate::util::replay_ref(cfg, "protocol", idx).set("binary", hex_bytes(&bytes));
         // full protocol log when the consumer always continues
-        let mut full: Vec<&str> = vec!["initialize", "header"];
+        let mut full: Vec<&str> = if header_damage { vec!["initialize"] } else { vec!["initialize", "header"] };
         full.extend(std::iter::repeat("inst").take(delivered_max));
         if err_at.is_none() {
             full.push("finalize");
@@ -134,7 +148,7 @@ pub fn run(cfg: &Cfg, rep: &mut Report) {
                 }
                 let token = idx * 1000 + k as u64;
                 let mut c = Scripted { at: if k == positions { usize::MAX } else { k }, act, token, log: vec![], insts: vec![], header: None, calls: 0 };
-                let res = match catch(|| rspirv::binary::parse_bytes(&bytes, &mut c)) {
+                let res = match catch(|| if via_words { rspirv::binary::parse_words(&w, &mut c) } else { rspirv::binary::parse_bytes(&bytes, &mut c) }) {
                     Ok(x) => x,
                     Err(p) => {
                         r.violation(format!("C14:panic:{}", crate::util::panic_key(&p)), format!("parser panicked: {}", p.msg), rp());
@@ -142,7 +156,7 @@ pub fn run(cfg: &Cfg, rep: &mut Report) {
                     }
                 };
                 let fail = |r: &mut Report, rule: &str, msg: String| {
-                    r.violation(format!("C14:{}", rule), format!("{} [N={}, answer {:?} at callback #{}, parse error at instruction {:?}]\nlog: {:?}", msg, n_inst, act, k, err_at, c.log), rp());
+                    r.violation(format!("C14:{}", rule), format!("{} [N={}, {} entry point, answer {:?} at callback #{}, parse error at instruction {:?} (0 = header)]\nlog: {:?}", msg, n_inst, if via_words { "parse_words" } else { "parse_bytes" }, act, k, err_at, c.log), rp());
                 };
                 let want_log: Vec<&str> = if k == positions { full.clone() } else { full[..=k].to_vec() };
                 if c.log != want_log {
@@ -188,12 +202,12 @@ pub fn run(cfg: &Cfg, rep: &mut Report) {
                     }
                 }
                 let pos_class = if k == 0 { "initialize" } else if k == 1 { "header" } else if k == positions { "never" } else if full[k] == "finalize" { "finalize" } else { "inst" };
-                r.nontrivial(format!("N{}:{}:{:?}:err{}", n_inst, pos_class, act, err_at.is_some()));
+                r.nontrivial(format!("N{}:{}:{:?}:err{}:{}", n_inst, pos_class, act, if header_damage { "header" } else if err_at.is_some() { "inst" } else { "none" }, via_words));
                 r.evaluations += 1;
             }
         }
         // the loader, being such a consumer, yields a module only for binaries parsed to the end
-        match catch(|| rspirv::dr::load_bytes(&bytes)) {
+        match catch(|| if via_words { rspirv::dr::load_words(&w) } else { rspirv::dr::load_bytes(&bytes) }) {
             Err(p) => r.violation(format!("C14:panic:{}", crate::util::panic_key(&p)), format!("load_bytes panicked: {}", p.msg), rp()),
             Ok(Ok(_)) if err_at.is_some() => r.violation("C14:loader-module-after-parse-error".to_string(), format!("load_bytes returned a module although instruction {:?} cannot be parsed", err_at), rp()),
             _ => {}
